@@ -187,7 +187,7 @@ def check_upper(case):
                     se, se2 = float(dc.get_selectivity[0]), float(dc2.get_selectivity[0])
                     # the inversion divides by feed - permeate pressure: rounding in the iterate is amplified by the cancellation
                     # factor (vacuum flux / flux) once in the solver and once in the inversion (thorough-tier false alarm near equilibrium)
-                    cond = 1.0 if is_raised(jv) else max(abs(float(jv[i])) / max(abs(float(j[i])), 1e-300) for i in (0, 1))
+                    cond = 1.0 if is_raised(jv) else max(1.0, max(abs(float(jv[i])) / max(abs(float(j[i])), 1e-300) for i in (0, 1)))
                     # beyond cond ~ 300 (driving force < 0.3% of the pressures) three successive amplifications (iterate -> flux ->
                     # inversion) turn last-bit differences into 1e-5 and the comparison is undecidable (second false alarm there)
                     if math.isfinite(se) and se > 0 and math.isfinite(se2) and cond <= 300.0:
@@ -224,6 +224,13 @@ def check_upper(case):
             for k in range(n):
                 tot = abs(float(m.partial_fluxes[k][0])) + abs(float(m.partial_fluxes[k][1]))
                 yk = m.permeate_composition[k].p
+                vac = None if (flip or is_raised(jv)) else abs(float(jv[0])) + abs(float(jv[1]))
+                if min(yk, 1 - yk, m.feed_compositions[k].p, 1 - m.feed_compositions[k].p) < 1e-3 or (vac is not None and vac > 300.0 * tot):
+                    # a nearly exhausted component, or a driving force that has decayed below 0.3% of the pressures (the run approaches
+                    # equilibrium with the permeate side): rounding is amplified at this step and carried into all later ones
+                    # (thorough-tier false alarm, 1.2e-6 after four coarse steps); the comparison stops here
+                    classes.append("stopped-at-ill-conditioned-step")
+                    break
                 for i in (0, 1):
                     a, b = float(m.partial_fluxes[k][i]), float(m2.partial_fluxes[k][1 - i])
                     require(abs(a - b) <= ptol * max(abs(a), abs(b)) + 1e-13 * tot / max(min(yk, 1 - yk), 1e-300),
